@@ -46,6 +46,9 @@ func init() {
 				out = append(out, runC12(c12Desc{Case: UCase{Cfg: UCfg{Defs: []UDef{{Kind: "k1", Keys: []int{13}}}, Reg: []int{0}, Strict: strict},
 					Doc: &UDoc{Msg: "m", Kind: "k1", Fields: map[string]int{"f32": umValueIndex("fmaxf32")}}}})...)
 			}
+			for _, c := range umCorpusExtra() {
+				out = append(out, runC12(c12Desc{Case: c})...)
+			}
 			for i := 0; i < n; i++ {
 				c := UCase{Cfg: genUCfg(r), Doc: genUDoc(r, 1+i*3/n)}
 				if len(c.Cfg.Reg) > 0 {
